@@ -230,8 +230,13 @@ def r3_distance_mask(ctx):
                       "the grid form returns grid.where(mask)", bad="the grid is masked with the negated mask", fn=qn)
             mask = v[2][0] if okw else None
         okc = okel = oksh = None
+        if mask is not None and mask[0] == "call" and callee(mask) in ("numpy.less_equal", "numpy.greater_equal", "numpy.less", "numpy.greater") and len(mask[2]) == 2 and not mask[3]:
+            mask = ("cmp", {"less_equal": "<=", "greater_equal": ">=", "less": "<", "greater": ">"}[callee(mask).split(".")[1]], mask[2][0], mask[2][1])
+        if mask is not None and mask[0] == "unop" and mask[1] in ("~", "not") and mask[2][0] == "cmp" and mask[2][1] in ("<", "<=", ">", ">="):
+            # ~(d > m) is d <= m (distances are never NaN)
+            mask = ("cmp", {"<": ">=", "<=": ">", ">": "<=", ">=": "<"}[mask[2][1]], mask[2][2], mask[2][3])
         if mask is not None and mask[0] == "unop" and mask[1] in ("~", "not"):
-            okc = False
+            okc = None
         if mask is not None and mask[0] == "cmp":
             lhs, rhs, op = mask[2], mask[3], mask[1]
             if rhs == ("param", "maxdist"):
